@@ -362,6 +362,13 @@ func (p *Parser) parseItem() (secs2.Item, error) {
 	return item, nil
 }
 
+// capHint bounds a capacity hint taken from the SML text (the optional "[n]" after the item
+// type) by the number of input bytes left: no item can hold more elements than there are bytes
+// to describe them, so a tiny input can no longer request gigabytes.
+func (p *Parser) capHint(size int) int {
+	return min(size, len(p.data))
+}
+
 func (p *Parser) parseList(size int) (secs2.Item, error) {
 	// same cap as the binary decoder: unbounded nesting exhausts the goroutine stack (fatal)
 	p.depth++
@@ -369,7 +376,7 @@ func (p *Parser) parseList(size int) (secs2.Item, error) {
 		return nil, p.errf("list nesting depth exceeds maximum allowed: %d", secs2.MaxListDepth)
 	}
 
-	childItems := make([]secs2.Item, 0, size)
+	childItems := make([]secs2.Item, 0, p.capHint(size))
 
 	for {
 		switch ch := p.peekNonSpaceRune(); ch {
@@ -428,7 +435,7 @@ func (p *Parser) parseASCIIStrict(size int) (secs2.Item, error) {
 	isNumStr := false
 	isEscapedCh := false
 	var sb strings.Builder
-	sb.Grow(size)
+	sb.Grow(p.capHint(size))
 
 	for i, ch := range p.data {
 		switch {
@@ -679,7 +686,7 @@ func (p *Parser) parseLocalizedStr() (secs2.Item, error) {
 }
 
 func (p *Parser) parseBoolean(size int) (secs2.Item, error) {
-	items := make([]bool, 0, size)
+	items := make([]bool, 0, p.capHint(size))
 	start := p.pos
 	values := p.getItemValueStrings()
 
@@ -698,7 +705,7 @@ func (p *Parser) parseBoolean(size int) (secs2.Item, error) {
 }
 
 func (p *Parser) parseBinary(size int) (secs2.Item, error) {
-	items := make([]byte, 0, size)
+	items := make([]byte, 0, p.capHint(size))
 	start := p.pos
 	values := p.getItemValueStrings()
 
@@ -719,7 +726,7 @@ func (p *Parser) parseBinary(size int) (secs2.Item, error) {
 }
 
 func (p *Parser) parseFloat(byteSize int, size int) (secs2.Item, error) {
-	items := make([]float64, 0, size)
+	items := make([]float64, 0, p.capHint(size))
 	start := p.pos
 	values := p.getItemValueStrings()
 
@@ -740,7 +747,7 @@ func (p *Parser) parseFloat(byteSize int, size int) (secs2.Item, error) {
 }
 
 func (p *Parser) parseInt(byteSize int, size int) (secs2.Item, error) {
-	items := make([]int64, 0, size)
+	items := make([]int64, 0, p.capHint(size))
 	start := p.pos
 	values := p.getItemValueStrings()
 
@@ -761,7 +768,7 @@ func (p *Parser) parseInt(byteSize int, size int) (secs2.Item, error) {
 }
 
 func (p *Parser) parseUint(byteSize int, size int) (secs2.Item, error) {
-	items := make([]uint64, 0, size)
+	items := make([]uint64, 0, p.capHint(size))
 	start := p.pos
 	values := p.getItemValueStrings()
 
